@@ -40,6 +40,7 @@ func (c07) Gates(tier string, m map[string]int64) []rt.Gate {
 	return []rt.Gate{
 		rt.GateMin("stores of floats that differ in their last digits", m, "close_float_store", 100),
 		rt.GateMin("a later field repeating the name of a sort key", m, "duplicate_name_of_a_sort_key", 50),
+		rt.GateMin("an earlier field whose name differs from a sort key's only in letter case", m, "name_differing_only_in_case_from_a_sort_key", 50),
 		rt.GateMin("ORDER BY naming the same column twice", m, "repeated_order_column", 20),
 		rt.GateMin("sort keys defined through another select field", m, "alias_defined_sort_key", 50),
 		rt.GateMin("ordered results checked", m, "checked", 2000),
@@ -270,6 +271,17 @@ func (k c07) Run(c *rt.Ctx) {
 			fields = append(fields, other)
 			stmt.Fields = append(stmt.Fields, gen.Field{E: other.e, Alias: nm})
 			c.Rec.Inc("duplicate_name_of_a_sort_key")
+		}
+	}
+	if !aggregate && len(stmt.OrderBy) > 0 && r.Chance(1, 8) {
+		// an EARLIER select field whose back-quoted name differs from a sort key's name only in
+		// letter case: names are case-sensitive, the sort key is still the field named exactly
+		nm := stmt.OrderBy[r.Intn(len(stmt.OrderBy))].Name
+		if up := strings.ToUpper(nm); nm != "key" && nm != "value" && up != nm && !strings.Contains(nm, "`") {
+			other := []c07Field{{gen.Key(), "`" + up + "`", 'S'}, {gen.Call("strlen", gen.Value()), "`" + up + "`", 'N'}, {gen.Call("lower", gen.Value()), "`" + up + "`", 'S'}}[r.Intn(3)]
+			fields = append([]c07Field{other}, fields...)
+			stmt.Fields = append([]gen.Field{{E: other.e, Alias: other.name}}, stmt.Fields...)
+			c.Rec.Inc("name_differing_only_in_case_from_a_sort_key")
 		}
 	}
 	tps := map[string]byte{}
